@@ -9,9 +9,11 @@ ID = 'C09'
 PROPS_V = 'C09/Props.v'
 LEVEL = 'proof'
 TRUSTED = [
-    'translate/c08.py: ast extraction of the index / comparison / constant arithmetic of bspline.py (77 expressions of '
-    '__init__, intrv, bsplvn, action, value, fit, maskpoints, cholesky_band, iterfit) into coq/Generated/BSpline.v; '
-    'BSpline/GenBridge.v + the Cxx_generated_* obligations prove that the hand-written reference models are built from exactly these',
+    'translate/c08.py: ast extraction of the index / comparison / constant arithmetic of bspline.py (87 expressions of '
+    '__init__, intrv, bsplvn, action, value incl. the masked-breakpoint gap logic, fit, maskpoints, cholesky_band, iterfit incl. its '
+    'guards: too-few-points early return, status -2 abort, give-up test, when djs_reject runs) and of the neighbour comparison of '
+    'pydl/uniq.py into coq/Generated/BSpline.v; BSpline/GenBridge.v + the Cxx_generated_* obligations prove that the hand-written '
+    'reference models are built from exactly these',
     'hand-written models coq/BSpline/Eval.v + Fit.v (design rows from intrv/bsplvn, normal equations from the data, '
     'band_assemble, maskpoints_model/fit_status_model) -- tied to bspline.fit/action/maskpoints by the correspondence run',
     'the dense solver gj_inverse is NOT trusted: fit_dense only returns a vector after re-multiplying on the data '
@@ -167,6 +169,53 @@ def gen_fit_once(rng, idx):
     return call
 
 
+def gen_minimal(rng, idx):
+    """Boundary of "supported by data": exactly as many (or one more) positively weighted points as coefficients, point j
+    inside the support of basis function j (Schoenberg-Whitney), so single segments hold 0, 1, 2 ... fewer than nord points;
+    one interval with exactly nord points is the smallest instance.  The fit interpolates (or nearly): status 0 and the
+    certified optimum are required as for every other well-posed problem."""
+    for _try in range(200):
+        k = 1 + idx % 6
+        nseg = rng.randint(1, max(1, min(4, 8 - k)))
+        uniform = (idx // 6) % 2 == 0
+        b = [float(rng.randint(-2, 2))]
+        for _ in range(nseg):
+            b.append(b[-1] + (1.0 if uniform else rng.choice([0.5, 1.0, 1.5])))
+        sp = b[1] - b[0]
+        gb = [b[0] - sp * i for i in range(k - 1, 0, -1)] + list(b) + [b[-1] + sp * i for i in range(1, k)]
+        m = len(gb) - k
+        grid = [b[0] + i / 16.0 for i in range(0, int((b[-1] - b[0]) * 16) + 1)]
+        xs, prev, ok = [], None, True
+        for j in range(m):
+            lo, hi = max(gb[j], b[0]), min(gb[j + k], b[-1])
+            cand = [g for g in grid if (lo < g < hi or (j == 0 and g == b[0]) or (j == m - 1 and g == b[-1]) or (k == 1 and lo < g <= hi))
+                    and (prev is None or g > prev)]
+            if not cand:
+                ok = False
+                break
+            # stay early enough to leave room for the remaining points
+            prev = rng.choice(cand[:max(1, min(len(cand), 1 + len(cand) // max(1, (m - j))))])
+            xs.append(prev)
+        if not ok:
+            continue
+        extra = [g for g in grid if g not in xs]
+        rng.shuffle(extra)
+        npos = (idx // 12) % 2
+        pts = [(x, C.dyadic(rng, 0.25, 4, 2)) for x in xs + extra[:npos]] + [(x, 0.0) for x in extra[npos:npos + rng.randint(0, 2)]]
+        pts.sort()
+        xs_, ws = [p_[0] for p_ in pts], [p_[1] for p_ in pts]
+        if normal_cond(k, b, xs_, ws) > 1e6:
+            continue
+        ys = [C.dyadic(rng, -4, 4, 3) for _ in xs_]
+        y2 = [C.dyadic(rng, -4, 4, 6) for _ in xs_]
+        a_, b_ = C.dyadic(rng, -2, 2, 3), C.dyadic(rng, -2, 2, 3)
+        sentinel = [1000.0, 1e12, 1e17, 1e30, 1e300, -1e30][idx % 6]
+        return {'f': 'fit', 'kind': 'well', 'minimal': True, 'poly': False, 'nord': k, 'bkpt': b, 'xs': xs_, 'ys': ys, 'ws': ws,
+                'extra': {'y2': y2, 'comb': [a_ * u + b_ * v for u, v in zip(ys, y2)],
+                          'zw': [(sentinel if w == 0 else y) for y, w in zip(ys, ws)]}, 'ab': [a_, b_]}
+    return gen_fit(rng, idx)
+
+
 def gen_ill(rng, idx):
     kinds = ['gapk', 'gapk', 'gap1', 'fewpoints', 'zeroweights', 'allzero', 'toofew', 'gapk_edge', 'single_edge', 'single_dup', 'gap_stray', 'gap_stray']
     kind = kinds[idx % len(kinds)]
@@ -289,6 +338,7 @@ def correspond(ctx, proof_ok=True):
         raise RuntimeError('C09/Model.v does not build:\n' + log[-2000:])
     rng = ctx.rng
     calls = [gen_fit(rng, i) for i in range(ctx.n(72, 500))]
+    calls += [gen_minimal(rng, i) for i in range(ctx.n(18, 120))]
     calls += [gen_ill(rng, i) for i in range(ctx.n(72, 300))]
     calls += [gen_chol(rng, i) for i in range(ctx.n(90, 600))]
     nb = 8
@@ -317,6 +367,14 @@ def correspond(ctx, proof_ok=True):
         key = '%s:%s:%s' % (c['f'], c['kind'], r.get('err') or (('status=%s' % r['status']) if 'status' in r else 'ret=%s' % (
             -1 if r.get('ret') == -1 else 'idx')))
         dist[key] = dist.get(key, 0) + 1
+        if c.get('minimal'):
+            gbm = r.get('bk') or []
+            per = [sum(1 for x, w in zip(c['xs'], c['ws']) if w > 0 and (lo_ < x <= hi_ or (j_ == 0 and x == lo_)))
+                   for j_, (lo_, hi_) in enumerate(zip(c['bkpt'][:-1], c['bkpt'][1:]))]
+            mk = 'minimal:nord=%d:good-ncoef=%+d:min-points-per-segment=%d:%s' % (
+                c['nord'], sum(1 for w in c['ws'] if w > 0) - (len(gbm) - c['nord'] if gbm else 0), min(per) if per else -1,
+                r.get('err') or 'status=%s' % r.get('status'))
+            dist[mk] = dist.get(mk, 0) + 1
         if c['f'] == 'fit' and c['kind'] == 'well':
             if 'err' in r:
                 viol('C09:fit:well-supported:impl=%s' % r['err'], 'bspline.fit raised %s on a well-supported problem' % r['err'], c, r)
